@@ -299,4 +299,65 @@ Example txt_deposit_example :
   deposit txt_x_kind txt_y_kind txt_guard txt_index 32 5 31 = Some (0, 5, 31)%Z /\
   deposit txt_x_kind txt_y_kind txt_guard txt_index 32 (-1) 3 = None /\
   deposit txt_x_kind txt_y_kind txt_guard txt_index 32 32 3 = None.
+(** 8. (family scaling) the same statement over the sizes GENERATED from main() on every run
+    (Gen/Gen_ScalingZ.v, translate/scalingz2coq.py: symbolic execution of main()'s set-up code; a size is the
+    expression that reaches the `spacing_bins` parameter of the wake field's constructor / the `nfreqs` parameter
+    of the makeImpedance call that makes its impedance; every double operation rounded to binary64, unsigned
+    wrap-around, float -> unsigned conversions with their undefined domain).  [LZ O_getGridSize] = GridSize,
+    [LZ N_getBunchCurrents] = number of buckets of the filling pattern; every other input (padding, RoundPadding,
+    the double spacing_ps, and whatever else the source starts to use) is arbitrary.  For every bucket and cell,
+    the cell padBunchProfiles writes and wakePotential reads back is inside the buffer, whenever the computed
+    length has not wrapped to 0 (more than 2^63 cells). [pad_in_bounds_fixed] above is the same statement about
+    the hand-written copy [main_sizes] of the sizing after `fix:` 899923d and is kept for reference. *)
+From Inovesa Require Import Model.ScalingOps Gen.Gen_ScalingZ Proofs.ScalingZP Proofs.ScalingZRP.
+
+Theorem pad_in_bounds_generated :
+  forall (LZ : zleaf -> Z) (LQ : qleaf -> Qc) (LB : zbleaf -> bool) sp nm b x,
+    0 < LZ O_getGridSize < 2 ^ 32 -> 1 < LZ N_getBunchCurrents < 2 ^ 32 ->
+    gen_spacing_bins LZ LQ LB = Val sp -> gen_wake_nfreqs LZ LQ LB = Val nm -> 0 < nm ->
+    0 <= b < LZ N_getBunchCurrents -> 0 <= x < LZ O_getGridSize ->
+    0 <= pad_index sp b x < nm.
+Proof. exact gen_pad_in_bounds. Qed.
+Print Assumptions pad_in_bounds_generated.
+
+(** a single bucket: the wake field is as long as the radiation field, bucket 0 only *)
+Theorem pad_in_bounds_generated_single_bucket :
+  forall (LZ : zleaf -> Z) (LQ : qleaf -> Qc) (LB : zbleaf -> bool) sp nm x,
+    0 < LZ O_getGridSize < 2 ^ 32 -> 0 <= LZ N_getBunchCurrents <= 1 ->
+    gen_spacing_bins LZ LQ LB = Val sp -> gen_wake_nfreqs LZ LQ LB = Val nm -> 0 < nm ->
+    0 <= x < LZ O_getGridSize ->
+    0 <= pad_index sp 0 x < nm.
+Proof. exact gen_pad_in_bounds_single. Qed.
+Print Assumptions pad_in_bounds_generated_single_bucket.
+
+(** the radiation field (updateCSR): spacing 0, ceil(GridSize*max(padding,1)) cells or the next power of two *)
+Theorem rdtn_pad_in_bounds_generated :
+  forall (LZ : zleaf -> Z) (LQ : qleaf -> Qc) (LB : zbleaf -> bool) sp nm b x,
+    0 < LZ O_getGridSize < 2 ^ 32 ->
+    gen_rdtn_spacing_bins LZ LQ LB = Val sp -> gen_rdtn_nfreqs LZ LQ LB = Val nm -> 0 < nm ->
+    0 <= b < 2 ^ 32 -> 0 <= x < LZ O_getGridSize ->
+    sp = 0 /\ 0 <= pad_index sp b x < nm.
+Proof. exact gen_rdtn_in_bounds. Qed.
+Print Assumptions rdtn_pad_in_bounds_generated.
+
+(** [rnd53] of the size model is binary64 round-to-nearest-even as Flocq defines it (for every rational) *)
+From Coq Require Qreals Rdefinitions.
+From Flocq Require Core.
+Theorem rnd53_is_binary64_RNE :
+  forall q : Qc, Rdefinitions.Q2R (this (rnd53 q)) =
+                 Flocq.Core.Generic_fmt.round Flocq.Core.Zaux.radix2 (Flocq.Core.FLT.FLT_exp (-1074) 53)
+                   Flocq.Core.Round_NE.ZnearestE (Rdefinitions.Q2R (this q)).
+Proof. exact Float64P.rnd53_correct. Qed.
+Print Assumptions rnd53_is_binary64_RNE.
+
+(** non-vacuity: for the two former witnesses and a single-bucket configuration the generated functions return
+    defined values (no conversion outside its domain: every entry >= 0) and a non-zero wake length - the hypotheses
+    of the three theorems above are satisfiable.  (Values in the order N_getBunchCurrents, O_getGridSize |
+    O_getPadding, V_spacing_ps | O_getRoundPadding; result: spacing_bins, radiation-field length, wake-field length,
+    radiation-field spacing.  The numbers themselves are C06's business: C06_main_lengths_example.) *)
+Example pad_in_bounds_generated_hyps :
+  let ok := fun r => forallb (fun z => 0 <=? z) r && (0 <? nth 2 r 0) && (0 <? nth 1 r 0) in
+  ok (gen_sizes_list [5; 16] [Q2Qc 1; Q2Qc (265 # 256)] [false]) = true /\
+  ok (gen_sizes_list [31; 16] [Q2Qc 1; Q2Qc (33 # 32)] [true]) = true /\
+  ok (gen_sizes_list [1; 16] [Q2Qc (3 # 2); Q2Qc (33 # 32)] [false]) = true.
 Proof. vm_compute. repeat split; reflexivity. Qed.
